@@ -156,7 +156,7 @@ func genC09(r *Rand, tier string, i int) *h.Scenario {
 			ops = append(ops, h.Op{K: []int{h.OpCurrent, h.OpCompleted, h.OpAborted, h.OpPair}[r.Intn(4)]})
 		}
 		if r.Bool(0.15) {
-			ops = append(ops, h.Op{K: h.OpSleep, D: []int64{1e3, 1e6, 2e7, 2e8}[r.Intn(4)]})
+			ops = append(ops, h.Op{K: h.OpSleep, D: genSleep(r, &sc.Cont)})
 		}
 		if sc.Cont.Refresh == h.RefManual && r.Bool(0.2) {
 			ops = append(ops, h.Op{K: h.OpRefresh})
@@ -504,7 +504,7 @@ func genC10(r *Rand, tier string, i int) *h.Scenario {
 					ops = append(ops, h.Op{K: h.OpAbort, Bar: b, Flag: r.Bool(0.3)})
 				}
 			case 5:
-				ops = append(ops, h.Op{K: h.OpSleep, D: []int64{1e3, 1e6, 2e7}[r.Intn(3)]})
+				ops = append(ops, h.Op{K: h.OpSleep, D: genSleep(r, &sc.Cont)})
 			}
 			if c.Refresh == h.RefManual && r.Bool(0.15) {
 				ops = append(ops, h.Op{K: h.OpRefresh})
@@ -531,7 +531,7 @@ func genC10(r *Rand, tier string, i int) *h.Scenario {
 	for k, n := 0, r.Range(4, 12); k < n; k++ {
 		poll = append(poll, h.Op{K: []int{h.OpCurrent, h.OpCompleted, h.OpAborted, h.OpID, h.OpIsRunning}[r.Intn(5)], Bar: r.Intn(nb)})
 		if r.Bool(0.5) {
-			poll = append(poll, h.Op{K: h.OpSleep, D: []int64{1e3, 1e6, 2e7, 2e8}[r.Intn(4)]})
+			poll = append(poll, h.Op{K: h.OpSleep, D: genSleep(r, &sc.Cont)})
 		}
 	}
 	if r.Bool(0.7) {
